@@ -33,6 +33,9 @@ std::string prop_generate(Tape & t, int size) {
     int64_t total = nblocks * spd + (t.chance(1, 2) ? 0 : t.range(-spd + 1, spd - 1));
     if (total < 1) total = 1;
     if (total > 40000) total = 40000;
+    // one case in ten sits at the top of the sample-id range (the writer accepts any int64 id): the last sample id is
+    // INT64_MAX - 2 blocks - k for k around 0, 2^31 and 2^32 (the reader used INT64_MAX - INT32_MAX as an in-band marker for omitted blocks)
+    if (t.chance(1, 10)) first = INT64_MAX - total - 2 * spd - 8 - t.pick(std::vector<int64_t>{0, 1, 1000, (1LL << 31) - 5, 1LL << 31, 1LL << 32});   // (the writer refuses ids within one block of INT64_MAX)
     Pattern pat = small ? gen_pattern(t, *dt, {"blocks", "blocks", "spike", "spike2", "spike2", "const", "small"}, sd.spd) : gen_pattern(t, *dt, {"random", "ramp", "blocks", "const", "small"}, sd.spd);
     if (pat.kind == "blocks" || pat.kind == "spike" || pat.kind == "spike2") pat.p1 = spd;            // constant runs aligned with the storage blocks
     if (small && t.chance(1, 3)) pat.p1 = spd * 2;
